@@ -116,7 +116,7 @@ theorem parseNumeric_neg (F : FloatOps α) (c : Byte) (ds tail : List Byte) (hc 
 /-- a text that the restore functions read as the number `w`, whatever delimiter follows -/
 structure NumText (F : FloatOps α) (t : List Byte) (w : Value α) : Prop where
   start : ∃ c s, t = c :: s ∧ numStart c = true
-  chars : ∀ b ∈ t, b ≠ 0 ∧ b ≠ 44 ∧ b ≠ 58 ∧ b < 128
+  chars : ∀ b ∈ t, b ≠ 0 ∧ b ≠ 10 ∧ b ≠ 44 ∧ b ≠ 58 ∧ b < 128
   parse : ∀ c s, t = c :: s → ∀ tail : List Byte, TailOK tail →
     ∃ y, parseNumeric F c (s ++ tail) = some (y, tail) ∧ Equiv F w y
 
@@ -525,6 +525,91 @@ theorem cstr_eq_self (t : List Byte) (h : ∀ b ∈ t, b ≠ 0) : cstr t = t := 
     have hc : c ≠ 0 := h c (by simp)
     simp only [List.takeWhile_cons, ne_eq, hc, not_false_eq_true, decide_true, ↓reduceIte]
     rw [ih (fun b hb => h b (by simp [hb]))]
+
+/-! ## a saved text has no LF (the line terminator of the save file) -/
+
+theorem escStr_nl (s : List Byte) : ∀ b ∈ escStr s, b ≠ 10 := by
+  induction s with
+  | nil => simp [escStr]
+  | cons c r ih =>
+    intro b hb
+    simp only [escStr, List.mem_append] at hb
+    rcases hb with hb | hb
+    · rw [escByte_eq] at hb
+      split at hb
+      · simp at hb; rcases hb with rfl | rfl <;> omega
+      · split at hb
+        · simp at hb; omega
+        · simp at hb; omega
+    · exact ih b hb
+
+mutual
+theorem save_nl (F : FloatOps α) : (v : Value α) → Savable F v → ∀ b ∈ save F v, b ≠ 10
+  | .int n, hs => by
+    intro b hb; rw [save] at hb
+    exact ((numText_int F n hs.int_inv.1 hs.int_inv.2).chars b hb).2.1
+  | .real x, hs => by
+    intro b hb; rw [save] at hb
+    exact ((numText_real F x hs.real_inv).chars b hb).2.1
+  | .str s, _ => by
+    intro b hb
+    simp only [save, List.mem_cons, List.mem_append, List.not_mem_nil, or_false] at hb
+    rcases hb with rfl | hb | rfl
+    · omega
+    · exact escStr_nl s b hb
+    · omega
+  | .arr xs, hs => by
+    intro b hb
+    have ih := saveElems_nl F xs hs.arr_inv.1
+    simp only [save, List.mem_cons, List.mem_append, List.not_mem_nil, or_false] at hb
+    rcases hb with rfl | rfl | hb | rfl | rfl
+    · omega
+    · omega
+    · exact ih b hb
+    · omega
+    · omega
+  | .cls xs, hs => by
+    intro b hb
+    have ih := saveElems_nl F xs hs.cls_inv
+    simp only [save, List.mem_cons, List.mem_append, List.not_mem_nil, or_false] at hb
+    rcases hb with rfl | rfl | hb | rfl | rfl
+    · omega
+    · omega
+    · exact ih b hb
+    · omega
+    · omega
+  | .map ps, hs => by
+    intro b hb
+    have ih := savePairs_nl F ps hs.map_inv.1
+    simp only [save, List.mem_cons, List.mem_append, List.not_mem_nil, or_false] at hb
+    rcases hb with rfl | rfl | hb | rfl | rfl
+    · omega
+    · omega
+    · exact ih b hb
+    · omega
+    · omega
+  | .obj, _ => by simp [save]
+theorem saveElems_nl (F : FloatOps α) : (xs : Vals α) → SavableVals F xs → ∀ b ∈ saveElems F xs, b ≠ 10
+  | .nil, _ => by simp [saveElems]
+  | .cons v r, hs => by
+    intro b hb
+    simp only [saveElems, List.mem_cons, List.mem_append] at hb
+    rcases hb with hb | rfl | hb
+    · exact save_nl F v hs.cons_inv.1 b hb
+    · omega
+    · exact saveElems_nl F r hs.cons_inv.2 b hb
+theorem savePairs_nl (F : FloatOps α) : (ps : Pairs α) → SavablePairs F ps → ∀ b ∈ savePairs F ps, b ≠ 10
+  | .nil, _ => by simp [savePairs]
+  | .cons k v r, hs => by
+    intro b hb
+    simp only [savePairs, List.mem_cons, List.mem_append] at hb
+    rcases hb with hb | rfl | hb | rfl | hb
+    · exact save_nl F k hs.cons_inv.1 b hb
+    · omega
+    · exact save_nl F v hs.cons_inv.2.1 b hb
+    · omega
+    · exact savePairs_nl F r hs.cons_inv.2.2 b hb
+end
 
 /-! ## (D) the size pre-pass, one branch per lemma -/
 
